@@ -105,7 +105,7 @@ def host_histories(sc, lg, end):
         spec = hspec(h)
         for a_, b_ in zip(cuts, cuts[1:]):
             mid = (a_ + b_) / 2
-            on, ps = True, 0
+            on, ps = True, h.get("pstate", 0)
             for c in ctl:
                 if c[0] <= a_:
                     if c[3] == "state":
@@ -206,11 +206,19 @@ def features(sc):
 
 
 def classify(sc, lg, hn, segs, clock, feats):
-    """Names the class of the history of this host before `clock` (stable across seeds)."""
+    """Names the class of the history of this host before `clock` (stable across seeds). The first two classes are the ones of the
+    open findings; they are only given to the hosts they can concern."""
+    h = [h for h in sc["hosts"] if h["name"] == hn][0]
+    if sc["via"] == "xml" and (h.get("pstate") or any(p["res"] == hn and p["kind"] == "hstate" and [v for d, v in p["pts"] if d == 0][-1:] == [0.0]
+                                                        for p in sc["profiles"])):
+        return "xml-state-set-before-the-run"
+    xt = exec_table(sc)
+    for o in lg.ops:
+        if o[2] == "xmigrate" and o[1] < clock and o[4] == hn:
+            return "destination-of-a-migration"
     c = []
-    mig = [o for o in lg.ops if o[2] == "xmigrate" and o[1] < clock]
-    if mig:
-        c.append("after-migration")
+    if any(o[2] == "xmigrate" and o[1] < clock and xt[o[3]]["host"] == hn for o in lg.ops):
+        c.append("after-emigration")
     if any(o[2] == "xsuspend" and o[1] < clock for o in lg.ops):
         c.append("after-suspend")
     if any(o[2] == "pstate" and o[3] == hn and o[1] < clock for o in lg.ops):
@@ -328,6 +336,17 @@ def directed():
     sc["actors"] = [{"name": "w0", "host": "obs", "ops": [["until", 1.0], ["xstart", "x1", "e1", 64.0, 0.0, 1.0, 1], ["until", 4.0], ["xmigrate", "x1", "e2"], ["xwait", "x1"]]},
                     {"name": "zobs", "host": "obs", "ops": sum(([["until", float(t)], ["energy"]] for t in (12, 20)), [])}]
     out.append(("migration", sc))
+    # D4: initial pstate given in the platform (XML attribute pstate= / set_pstate before the run), host off at date 0 by its state profile
+    for via in ("xml", "api"):
+        e1 = _host("e1", 2, [8.0, 4.0], [[100.0, 120.0, 160.0], [50.0, 60.0, 70.0]], 10.0)
+        e1["pstate"] = 1
+        e2 = _host("e2", 1, [8.0], [[100.0, 120.0, 160.0]], 10.0)
+        sc = {"mode": "exact", "via": via, "flags": [], "hflags": [], "plugins": ["host_energy"], "links": [], "routes": [], "step": 1.0,
+              "profiles": [{"kind": "hstate", "res": "e2", "pts": [[0.0, 0.0], [2.0, 1.0]], "loop": None, "how": "xml" if via == "xml" else "str"}],
+              "hosts": [_host("obs", 1, [1.0], [[1.0, 1.0, 1.0]], 0.0), e1, e2]}
+        sc["actors"] = [{"name": "w0", "host": "obs", "ops": [["until", 3.0], ["exec", "x1", "e1", 8.0, 0.0, 1.0, 1]]},
+                        {"name": "zobs", "host": "obs", "ops": sum(([["until", float(t)], ["energy"]] for t in (1, 2, 3, 4, 6)), [])}]
+        out.append(("initial-state:" + via, sc))
     return out
 
 
